@@ -27,6 +27,8 @@ struct Xs {
     regions: Vec<u8>,
     /// the innermost region ends when st.ops_left drops to this value
     floors: Vec<usize>,
+    /// the next region entered gets a budget of 0..2 operations
+    quick_exit: bool,
 }
 
 const ELEMS: &[(usize, usize)] = &[(1, 1), (2, 2), (4, 4), (8, 8), (16, 16), (32, 32), (3, 1), (12, 4)];
@@ -152,7 +154,13 @@ where
             xs.prepared = None;
             return false;
         }
-        let k = st.rng.below(100);
+        let mut k = st.rng.below(100);
+        // an arena that owns no chunk yet: exercise regions around it before the first allocation
+        let empty = xs.prepared.is_none() && scope.stats().count() == 0 && !scope.is_claimed();
+        if empty && st.rng.coin(2, 3) {
+            k = st.rng.pick(&[55u64, 55, 67, 61, 0]);
+            xs.quick_exit = st.rng.coin(2, 3);
+        }
         match k {
             0..=54 if xs.prepared.is_none() => {
                 // a core operation
@@ -190,7 +198,7 @@ where
     xs.depth_total += 1;
     st.depth += 1;
     xs.regions.push(0);
-    { let b = st.rng.range(3, 30) as usize; let fl = st.ops_left.saturating_sub(b).max(xs.floors.last().copied().unwrap_or(0)); xs.floors.push(fl); }
+    { let b = if xs.quick_exit { xs.quick_exit = false; st.rng.below(3) as usize } else { st.rng.range(3, 30) as usize }; let fl = st.ops_left.saturating_sub(b).max(xs.floors.last().copied().unwrap_or(0)); xs.floors.push(fl); }
     let alloc_before = scope.stats().allocated();
     let pos_before = scope.stats().current_chunk().map(|c| c.bump_position().as_ptr() as usize);
     let stp: *mut St = st;
@@ -242,7 +250,7 @@ where
         xs.lower.push(scope_ptr);
         xs.depth_total += 1;
         xs.regions.push(1);
-        { let b = st.rng.range(3, 30) as usize; let fl = st.ops_left.saturating_sub(b).max(xs.floors.last().copied().unwrap_or(0)); xs.floors.push(fl); }
+        { let b = if xs.quick_exit { xs.quick_exit = false; st.rng.below(3) as usize } else { st.rng.range(3, 30) as usize }; let fl = st.ops_left.saturating_sub(b).max(xs.floors.last().copied().unwrap_or(0)); xs.floors.push(fl); }
         stats_line(st, &*guard);
         // the claimed handle must now look empty
         if !shared.is_claimed() { st.x("claimed-handle-not-claimed", ""); }
@@ -309,7 +317,7 @@ where
                 }
                 xs.depth_total += 1;
                 xs.regions.push(2);
-                { let b = st.rng.range(3, 30) as usize; let fl = st.ops_left.saturating_sub(b).max(xs.floors.last().copied().unwrap_or(0)); xs.floors.push(fl); }
+                { let b = if xs.quick_exit { xs.quick_exit = false; st.rng.below(3) as usize } else { st.rng.range(3, 30) as usize }; let fl = st.ops_left.saturating_sub(b).max(xs.floors.last().copied().unwrap_or(0)); xs.floors.push(fl); }
                 let p = run_x(st, xs, inner);
                 xs.regions.pop();
                 xs.floors.pop();
@@ -428,7 +436,7 @@ where
     }
 }
 
-fn run_one_x<A, S>(st: &mut St, init: u8, init_arg: (usize, usize))
+fn run_one_x<A, S>(st: &mut St, init: u8, init_arg: (usize, usize), unalloc: Option<fn() -> Bump<A, S>>)
 where
     A: bump_scope::BaseAllocator<S::GuaranteedAllocated> + Default,
     S: BumpAllocatorSettings,
@@ -439,6 +447,7 @@ where
         1 => { let _ = writeln!(st.out, "INIT S {}", init_arg.0); Bump::<A, S>::try_with_size_in(init_arg.0, A::default()).ok() }
         2 => { let _ = writeln!(st.out, "INIT C {} {}", init_arg.0, init_arg.1);
                Bump::<A, S>::try_with_capacity_in(Layout::from_size_align(init_arg.0, init_arg.1).unwrap(), A::default()).ok() }
+        3 if unalloc.is_some() => { let _ = writeln!(st.out, "INIT U"); Some((unalloc.unwrap())()) }
         _ => { let _ = writeln!(st.out, "INIT N"); Bump::<A, S>::try_new_in(A::default()).ok() }
     };
     events_lines(st);
@@ -449,7 +458,7 @@ where
     };
     let _ = writeln!(st.out, "R U");
     stats_line(st, bump.as_scope());
-    let mut xs = Xs { lower: vec![], prepared: None, depth_total: 0, regions: vec![], floors: vec![] };
+    let mut xs = Xs { lower: vec![], prepared: None, depth_total: 0, regions: vec![], floors: vec![], quick_exit: false };
     run_x(st, &mut xs, bump.as_mut_scope());
     if st.dead {
         core::mem::forget(bump);
@@ -470,10 +479,20 @@ where
     let _ = writeln!(st.out, "END");
 }
 
+macro_rules! cfg_run {
+    ($st:expr, $init:expr, $ia:expr, $ma:literal, $up:literal, false, $de:literal, $sh:literal, $mc:literal, $p:ty) => {
+        run_one_x::<TA<$p>, BumpSettings<$ma, $up, false, true, $de, $sh, $mc>>($st, $init, $ia,
+            Some(Bump::<TA<$p>, BumpSettings<$ma, $up, false, true, $de, $sh, $mc>>::unallocated as fn() -> _))
+    };
+    ($st:expr, $init:expr, $ia:expr, $ma:literal, $up:literal, true, $de:literal, $sh:literal, $mc:literal, $p:ty) => {
+        run_one_x::<TA<$p>, BumpSettings<$ma, $up, true, true, $de, $sh, $mc>>($st, $init, $ia, None)
+    };
+}
+
 macro_rules! matrix {
-    ($idx:expr, $st:expr, $init:expr, $ia:expr; $( $n:literal => ($ma:literal, $up:literal, $ga:literal, $de:literal, $sh:literal, $mc:literal, $p:ty) ),* $(,)?) => {
+    ($idx:expr, $st:expr, $init:expr, $ia:expr; $( $n:literal => ($ma:literal, $up:literal, $ga:tt, $de:literal, $sh:literal, $mc:literal, $p:ty) ),* $(,)?) => {
         match $idx {
-            $( $n => run_one_x::<TA<$p>, BumpSettings<$ma, $up, $ga, true, $de, $sh, $mc>>($st, $init, $ia), )*
+            $( $n => cfg_run!($st, $init, $ia, $ma, $up, $ga, $de, $sh, $mc, $p), )*
             _ => unreachable!(),
         }
     };
@@ -515,7 +534,9 @@ fn main() {
         let og = (sd % 4) as u8;
         with_pool(|p| p.reset(sd, og));
         let mut r = Rng::new(sd ^ 0x5555);
-        let init = r.below(4) as u8;
+        // unallocated start (only GUARANTEED_ALLOCATED = false configurations honour it) is common here:
+        // claims / aligned regions / prepared slices on an arena without any chunk
+        let init = if r.coin(1, 2) { 3 } else { r.below(3) as u8 };
         let ia = match init {
             1 => (r.pick(&[0usize, 1, 100, 512, 1000, 4096, 10000]), 0),
             2 => (r.pick(&[0usize, 1, 17, 400, 401, 4000, 70000]), 1usize << r.below(9)),
